@@ -153,6 +153,9 @@ def units(tier):
     return U
 
 
+# checks whose proof units establish the callee contracts applied here (re-verified by this check, see main.dependency_units)
+DEPENDENCIES = ['C04', 'C05']
+
 META = {
     "level": "proof",
     "bounds": {"values": "every declared value (writable and read-only) of all banks",
